@@ -11,13 +11,23 @@ def b36 (n : Nat) : Char :=
 def cont : Nat → CbRet := fun _ => .cont
 
 /-- `E <mem-style trace>|<mapped-file-style trace>` (an empty file is mapped as NULL/0) -/
-def entryPoints (c : Case) (inp : Nat) : String :=
+def entryPoints1 (c : Case) (inp : Nat) (script : String) : String :=
+  let cb := parseCb script
   let it := mkIt c inp "-" false
-  let a := rulesScanBlocks c.P c.variant cont 16384 c.set it ⟨0, 0⟩
+  let a := rulesScanBlocks c.P c.variant cb 16384 c.set it ⟨0, 0⟩
   let size := (c.inputs[inp]?.map (·.total)).getD 0
   let data := match it.all with | b :: _ => b.data | [] => none
-  let b := rulesScanMapped c.P c.variant cont 16384 c.set (.ok (if size == 0 then none else data, size)) ⟨0, 0⟩
-  "E " ++ showTrace a.msgs a.rc ++ "|" ++ showTrace b.msgs b.rc
+  let b := rulesScanMapped c.P c.variant cb 16384 c.set (.ok (if size == 0 then none else data, size)) ⟨0, 0⟩
+  script ++ "=" ++ showTrace a.msgs a.rc ++ "|" ++ showTrace b.msgs b.rc
+
+/-- per callback script: `<script>=<mem-style trace>|<mapped-file-style trace>`, joined by `^` -/
+def entryPoints (c : Case) (inp : Nat) (scripts : List String) : String :=
+  "E " ++ "^".intercalate (scripts.map (entryPoints1 c inp))
+
+/-- `yr_rules_scan_mem` of a whole (single-block) input -/
+def wholeTrace (c : Case) (inp : Nat) : String :=
+  let a := rulesScanBlocks c.P c.variant cont 16384 c.set (mkIt c inp "-" false) ⟨0, 0⟩
+  showTrace a.msgs a.rc
 
 def maskSched (n m : Nat) : List Act := (List.range n).map fun k => if m / 2 ^ k % 2 == 1 then .notReady else .ok
 
@@ -71,10 +81,11 @@ def handle (line : String) : String :=
     | none => id ++ " BADCASE"
     | some c =>
       match field rest "ep", field rest "masks" with
-      | some e, _ => id ++ " " ++ entryPoints c (nat e)
+      | some e, _ => id ++ " " ++ entryPoints c (nat e) (((field rest "cbs").getD "-").splitOn ",")
       | none, some m =>
         (match m.splitOn ":" with
          | [i, n] => id ++ " " ++ masks c (nat i) (nat n)
+         | [i, n, wi] => id ++ " " ++ masks c (nat i) (nat n) ++ "!W=" ++ wholeTrace c (nat wi)
          | _ => id ++ " BADTASK")
       | none, none => id ++ " BADTASK"
 
